@@ -21,6 +21,8 @@ var kinds = map[string]kind{
 	"cons": {genCons, runCons},
 	"grp":  {genGrp, runGrp},
 	"cmt":  {genCmt, runCmt},
+	"txn":  {genTxn, runTxn},
+	"eos":  {genEos, runEos},
 }
 
 func TestMain(m *testing.M) {
